@@ -5,8 +5,10 @@ package checks
 import (
 	"fmt"
 	"os"
+	"runtime"
 	"sort"
 	"sync"
+	"sync/atomic"
 	"testing"
 	"time"
 
@@ -552,6 +554,64 @@ func runCacheStressCase(c cacheStressCase) *Violation {
 				seg.Close()
 				return v
 			}
+		}
+	}
+	// expiry hammer: one goroutine runs expiry passes back to back while the others open, search and
+	// close as fast as they can, so that an entry is often exactly one idle pass from eviction when
+	// an opener takes its reference
+	if len(coldJobs) > 0 {
+		iters := 150
+		if os.Getenv("VERIF_TIER") == "thorough" {
+			iters = 1500
+		}
+		var stopHammer atomic.Bool
+		var hwg, swg sync.WaitGroup
+		hwg.Add(1)
+		go func() {
+			defer hwg.Done()
+			for !stopHammer.Load() {
+				zap.VerifVectorCacheExpire(seg)
+				runtime.Gosched()
+			}
+		}()
+		hres := make([]*Violation, 3)
+		for g := 0; g < 3; g++ {
+			swg.Add(1)
+			go func(g int) {
+				defer swg.Done()
+				err := drive.Safe(func() error {
+					for i := 0; i < iters && hres[g] == nil; i++ {
+						job := coldJobs[(g+i)%len(coldJobs)]
+						got, err := vecSearch(seg, job.field, job.q, 50, nil, job.filter, job.el)
+						if err != nil {
+							return err
+						}
+						if fmt.Sprint(got) != fmt.Sprint(job.want) {
+							hres[g] = violation(prop, "stress/history-dependent-answer", "search of field %q (filtered=%v) while expiry passes run back to back: got %v, a fresh copy answers %v", job.field, job.filter, got, job.want)
+						}
+						if i%7 == 0 {
+							time.Sleep(50 * time.Microsecond) // an idle gap now and then
+						}
+					}
+					return nil
+				})
+				if err != nil && hres[g] == nil {
+					hres[g] = violation(prop, "stress/error", "search while expiry passes run back to back: %v", err)
+				}
+			}(g)
+		}
+		swg.Wait()
+		stopHammer.Store(true)
+		hwg.Wait()
+		for _, v := range hres {
+			if v != nil {
+				seg.Close()
+				return v
+			}
+		}
+		if m := faissMisuse(); m != "" {
+			seg.Close()
+			return violation(prop, "stress/index-lifetime", "searches while expiry passes run back to back: %s", m)
 		}
 	}
 	res := make([]*Violation, len(c.Searchers))
